@@ -1035,10 +1035,20 @@ func (m *Model) exploreImpl(b *ssa.BasicBlock, succ int, startAt ssa.Instruction
 				return
 			}
 			switch t := in.(type) {
+			case *ssa.Call:
+				// descend into a function that is called from here only (its Return comes back here)
+				if m.descend != nil {
+					if callee := t.Call.StaticCallee(); callee != nil && callee.Blocks != nil && callee.Parent() == nil && depth < 64 && m.descend(callee) {
+						if sites := m.callers[callee]; len(sites) == 1 && sites[0].Instr == ssa.CallInstruction(t) {
+							walkFrom(callee.Blocks[0], nil, 0, flag, bd, depth+1)
+							return
+						}
+					}
+				}
 			case *ssa.Return:
 				f := x.Parent()
 				sites := m.callers[f]
-				if f.Parent() == nil && len(sites) == 1 && !sites[0].IsGo && !sites[0].IsDef && depth < 6 {
+				if f.Parent() == nil && len(sites) == 1 && !sites[0].IsGo && !sites[0].IsDef && depth < 64 {
 					if call, ok := sites[0].Instr.(*ssa.Call); ok {
 						nb := binding{}
 						for k, v := range bd {
@@ -1107,7 +1117,17 @@ func (m *Model) exploreImpl(b *ssa.BasicBlock, succ int, startAt ssa.Instruction
 					}
 				}
 			}
-			walkFrom(s, x, 0, flag, bd, depth)
+			nflag := flag
+			if m.edgeHook != nil {
+				if l, ok := m.edgeLit(x, i); ok {
+					var stop bool
+					nflag, stop = m.edgeHook(l, flag)
+					if stop {
+						continue
+					}
+				}
+			}
+			walkFrom(s, x, 0, nflag, bd, depth)
 		}
 	}
 	if startAt != nil {
